@@ -1,7 +1,11 @@
 import Mieru.Proofs.Blocking
 import Mieru.Proofs.Deadline
+import Mieru.Proofs.UnderlayCloseExec
+import Mieru.Proofs.Scheduler
+import Mieru.Model.Lifecycle
 import Mieru.Gen.Facts
 import Mieru.Gen.FactsC15
+import Mieru.Gen.FactsC15Life
 /-!
 # C15 — Close always completes, unblocks everyone and leaves nothing running; deadlines
 
@@ -255,7 +259,242 @@ theorem deadline_stores_match_model :
       ("Session.Read", "s.readDeadline"), ("Session.Read", "s.respDeadline"),
       ("Session.writeChunk", "s.writeDeadline")] := by decide
 
+/-- A `Write` of any number of chunks and `Read`s issued back to back (`io.ReadFull`, the SOCKS5 parser of
+    `Server.Accept`) under a deadline set before them: after any history, the whole multi-call operation
+    is over by `max start d`, whatever the environment does to each of its calls, and it leaves the
+    deadline in force for the next one. -/
+theorem deadline_bounds_multi_call (client : Bool) (s : St) (pre : List Op) (start : Nat) (envs : List (Option Nat)) :
+    ((specRun ⟨s.rd, s.wd⟩ pre).rd ≠ 0 →
+      boundedBy start (specRun ⟨s.rd, s.wd⟩ pre).rd (readLoop client (run client s pre) start envs).2) ∧
+    ((specRun ⟨s.rd, s.wd⟩ pre).wd ≠ 0 →
+      boundedBy start (specRun ⟨s.rd, s.wd⟩ pre).wd (writeChunks client (run client s pre) start envs).2) ∧
+    (readLoop client (run client s pre) start envs).1.rd = (specRun ⟨s.rd, s.wd⟩ pre).rd ∧
+    (writeChunks client (run client s pre) start envs).1.wd = (specRun ⟨s.rd, s.wd⟩ pre).wd := by
+  have hu := run_user client s pre
+  have hrd : (run client s pre).rd = (specRun ⟨s.rd, s.wd⟩ pre).rd := congrArg Spec.rd hu
+  have hwd : (run client s pre).wd = (specRun ⟨s.rd, s.wd⟩ pre).wd := congrArg Spec.wd hu
+  obtain ⟨r1, r2, _⟩ := readLoop_spec client (run client s pre) start envs
+  obtain ⟨w1, _, w3, _⟩ := writeChunks_spec client (run client s pre) start envs
+  rw [hrd] at r1 r2
+  rw [hwd] at w1 w3
+  exact ⟨r1, w1, r2, w3⟩
+
+/-- The client's implicit response deadline (`respDeadline`, introduced by the repair): only a client
+    arms it, only at the end of a chunk that went through, 10 s after that chunk returned; the Read that
+    follows is bounded by the earlier of it and the user's deadline and clears it; a server never has one.
+    So it can shorten a Read, never lengthen one, and never outlives the next Read. -/
+theorem response_deadline_spec (s : St) (start : Nat) (env : Option Nat) (envs : List (Option Nat)) (t : Nat) :
+    -- a server never arms it
+    (∀ ops, s.resp = 0 → (run false s ops).resp = 0) ∧
+    -- a client's complete multi-chunk write arms it 10 s after the last chunk
+    (envs ≠ [] → (writeChunks true s start envs).2 = .at t false → (writeChunks true s start envs).1.resp = t + respTimeout) ∧
+    -- the next Read uses the earlier of the two and clears it
+    ((step true s (.read start env)).2 = Deadline.finish start (minNZ s.rd s.resp) env ∧ (step true s (.read start env)).1.resp = 0) ∧
+    -- with a silent peer and no user deadline the Read after a write ends exactly when it fires
+    (s.rd = 0 → s.resp ≠ 0 → (step true s (.read start none)).2 = .at (max start s.resp) true) := by
+  refine ⟨?_, fun h1 h2 => (writeChunks_spec true s start envs).2.2.2 t rfl h1 h2, ⟨rfl, rfl⟩, ?_⟩
+  · intro ops
+    induction ops generalizing s with
+    | nil => exact id
+    | cons o os ih =>
+      intro h0
+      simp only [run]
+      apply ih
+      cases o with
+      | setR t => rfl
+      | setW t => exact h0
+      | setRW t => rfl
+      | read st e => rfl
+      | write st e c =>
+        simp only [step]
+        split <;> simp [h0]
+  · intro h0 h1
+    simp [step, armedRead, minNZ, h0, h1, Deadline.finish]
+
+/-! ## Closing an underlay, closing a mux: the transition system `Mieru.UClose`
+
+One underlay with its sessions and their loops, its event loop at every blocking site, the read
+deadline of its connection, any number of concurrent callers of `Close`, and `Mux.Close`; every
+interleaving with the environment (network, applications, tickers).  -/
+open Mieru.UClose in
+/-- Safety, for every shape of the code and every interleaving: when a call of the underlay's `Close`
+    has returned, `done` is closed and every session that was attached when the closing Range started is
+    closed with both of its loops gone; when a server's `Mux.Close` has returned, the event loop has left
+    and closed the socket; a loop that has left has closed the socket. -/
+theorem close_returns_closed {sh : Shape} {stream server : Bool} {m : Nat} {s : UClose.St}
+    (h : Reach sh stream server m s) :
+    (∀ k, s.cl k = .ret → s.done = true ∧ ∀ i, i < s.snap → gone s.closed s.run s.net i) ∧
+    (s.mux = .ret → s.cl 1 = .ret ∧ (s.server = true → s.loop = .exited ∧ s.sock = true)) ∧
+    (s.loop = .exited → s.sock = true) := by
+  have inv := reach_inv h
+  refine ⟨fun k hk => ?_, fun hm => ⟨inv.s'.m1c (Or.inr hm), fun hs => ?_⟩, fun hl => inv.s'.sk (Or.inl hl)⟩
+  · have hd := inv.b.ur k (Or.inr hk)
+    exact ⟨hd, (inv.b.dn hd).2⟩
+  · have hl := inv.s'.mr hm hs
+    exact ⟨hl, inv.s'.sk (Or.inl hl)⟩
+
+open Mieru.UClose in
+/-- Termination: every step that the goroutines of the transport take by themselves (callers of `Close`,
+    `Mux.Close`, session loops, the event loop) strictly decreases a natural number — whatever the shape of
+    the code.  So after the last environment step only finitely many steps follow. -/
+theorem close_terminates {sh : Shape} {s t : UClose.St} (h : OwnStep sh s t) : UClose.measure t < UClose.measure s :=
+  own_decreases h
+
+open Mieru.UClose in
+/-- "Close always completes and leaves nothing running", for the current source: in every reachable state
+    in which somebody has called `Close` or `Mux.Close` and nothing can move any more without the
+    environment, `done` is closed, every caller has returned (none is parked on `closeMutex` or in
+    `wg.Wait()`), `Mux.Close` has returned, the event loop has left — from whichever of its blocking sites
+    it was parked in — and closed the socket, and every session asked to close is closed with both loops
+    gone.  With `close_terminates`: Close completes along every schedule. -/
+theorem close_settles {stream server : Bool} {m : Nat} {s : UClose.St} (h2 : 2 ≤ m)
+    (h : Reach current stream server m s) (hstart : (∃ k, k < m ∧ s.cl k ≠ .idle) ∨ s.mux ≠ .idle)
+    (hq : Quiescent current s) : Settled s :=
+  settled_of_quiescent ⟨rfl, rfl, rfl⟩ h2 (reach_inv h) hstart hq
+
+open Mieru.Lifecycle in
+/-- Structural tie: the shape `close_settles` is proved for is the shape of the current source — both
+    `readOneSegment`s and `drainAfterError` (every place in pkg/protocol that arms a read deadline in the
+    future on an underlay's connection) poll `done` right after arming, and both underlay `Close`s reset
+    the read deadline again after `baseUnderlay.Close()` has closed `done`. -/
+theorem underlay_shape_matches_model :
+    shapeOf Gen.FactsC15Life.armSites Gen.FactsC15.closeBodies = UClose.current ∧
+    Gen.FactsC15Life.armSites.map (·.1) =
+      ["PacketUnderlay.readOneSegment", "StreamUnderlay.readOneSegment", "StreamUnderlay.drainAfterError"] := by decide
+
+open Mieru.UClose in
+/-- The three ways in which the code did not have that shape, as reachable states of the model in which
+    `done` is closed, nothing can move, and the event loop is parked in a read under a deadline in the
+    future: (1) no poll of `done` after arming in `readOneSegment` (seeded change C15-1; part of F-C15b),
+    (2) the only wake-up before `done` is closed (F-C15b, repaired by `fix: underlay Close wakes the event
+    loop again after done is closed`), (3) `drainAfterError` arming without a poll (found with this model,
+    reproduced on the real code by corpus/C15/gate-drain-server-tcp.json, repaired by `fix:
+    drainAfterError checks done after arming its read deadline`): there the server's `Mux.Close` waits. -/
+theorem unsound_shapes_park :
+    (∃ s, ParkedWitness ⟨false, true, true⟩ false false 3 s ∧ s.loop = .read ∧ s.poked2 = true) ∧
+    (∃ s, ParkedWitness ⟨true, false, true⟩ false false 3 s ∧ s.loop = .read) ∧
+    (∃ s, ParkedWitness ⟨true, true, false⟩ true true 2 s ∧ s.loop = .drain ∧ s.mux = .wait ∧ s.poked2 = true) :=
+  ⟨arm_witness, poke_witness, drain_witness⟩
+
+open Mieru.Lifecycle in
+/-- Structural tie for "leaves nothing running": every `go` statement of pkg/protocol, apis/client and
+    apis/server starts something that is either counted in a wait group that a closing function waits for
+    (`Add` before the `go`, `Done` inside, `Wait` in `baseUnderlay.Close` / `RemoveSession` / `Mux.Close`),
+    or selects on / receives from a channel that closing its owner fires (`close(x.done)`,
+    `close(s.closedChan)`, the master context that `Mux.Close` cancels); the count given to `Add` is the
+    number of goroutines started after it that call `Done`.  A new fire-and-forget goroutine breaks this. -/
+theorem every_goroutine_accounted :
+    (Gen.FactsC15Life.goStarts.map goOf).all (accounted Gen.FactsC15.closeCalls Gen.FactsC15.closeBodies) = true ∧
+    countsOk (Gen.FactsC15Life.goStarts.map goOf) = true := by decide
+
+/-- Structural tie: every `sync.WaitGroup` call in pkg/protocol and apis/{client,server}. -/
+theorem wait_group_sites_match :
+    Gen.FactsC15Life.wgSites = [
+      ("Mux.SetEndpoints", "wg", "Add", "1"), ("Mux.SetEndpoints", "wg", "Wait", ""),
+      ("Mux.Close", "m.serverUnderlayLoopWG", "Wait", ""),
+      ("Mux.Start", "wg", "Add", "1"), ("Mux.Start", "wg", "Wait", ""),
+      ("Mux.acceptUnderlayLoop", "wg", "Done", ""), ("Mux.acceptUnderlayLoop", "wg", "Done", ""),
+      ("Mux.acceptUnderlayLoop", "wg", "Done", ""), ("Mux.acceptUnderlayLoop", "wg", "Done", ""),
+      ("Mux.acceptUnderlayLoop", "wg", "Done", ""), ("Mux.acceptUnderlayLoop", "wg", "Done", ""),
+      ("Mux.acceptUnderlayLoop", "wg", "Done", ""), ("Mux.acceptUnderlayLoop", "wg", "Done", ""),
+      ("Mux.startServerUnderlayEventLoop", "m.serverUnderlayLoopWG", "Add", "1"),
+      ("Mux.startServerUnderlayEventLoop", "m.serverUnderlayLoopWG", "Done", "defer"),
+      ("baseUnderlay.Close", "s.wg", "Wait", ""), ("baseUnderlay.RemoveSession", "s.wg", "Wait", ""),
+      ("PacketUnderlay.AddSession", "s.wg", "Add", "2"), ("PacketUnderlay.AddSession", "s.wg", "Done", ""),
+      ("PacketUnderlay.AddSession", "s.wg", "Done", ""),
+      ("StreamUnderlay.AddSession", "s.wg", "Add", "2"), ("StreamUnderlay.AddSession", "s.wg", "Done", ""),
+      ("StreamUnderlay.AddSession", "s.wg", "Done", "")] := by decide
+
+/-! ## Which underlay a new client session goes to -/
+open Mieru.Sched in
+/-- When `Mux.DialContext` decides to put a new session on an existing underlay (`cleanUnderlay`,
+    `maybePickExistingUnderlay` at `now` under `mu`, `IncPending` at `now' ≥ now`), that underlay was not
+    closed and its scheduling was not disabled at either instant, it survived `cleanUnderlay`, and no
+    underlay of the mux that was already disabled — in particular none that `cleanUnderlay` has ever found
+    idle — is the one chosen.  (The decision is made under `mu`, the session is attached after `mu` is
+    released: an underlay that fails in between still gets the session — docs/notes/C15.md.) -/
+theorem dial_reuses_only_live {T mf r now now' : Nat} {us : List U} {v : U} (hn : now ≤ now')
+    (h : dial T mf r now now' us = .reuse v) :
+    v.done = false ∧ isDisabled now v.ctl = false ∧ isDisabled now' v.ctl = false ∧
+    ∃ u ∈ us, v = cleanOne T now true u ∧ u.done = false ∧ isDisabled now u.ctl = false ∧
+      ¬ (u.sessions = 0 ∧ idle T now u.ctl = true) := by
+  unfold dial at h
+  split at h
+  · cases h
+  · rename_i w hw
+    split at h
+    · rename_i hinc
+      cases h
+      obtain ⟨hm, hd, hdis⟩ := pick_sound hw
+      obtain ⟨_, u, hu, hud, hv, hidle⟩ := clean_sound hm
+      refine ⟨hd, hdis, incPending_ok hinc, u, hu, hv, hud, ?_, hidle⟩
+      -- a disabled `u` stays disabled through cleanOne (disableTime is written once)
+      cases hdu : isDisabled now u.ctl with
+      | false => rfl
+      | true =>
+        have hne := isDisabled_ne hdu
+        have : (cleanOne T now true u).ctl.disable = u.ctl.disable := by
+          have w1 := (disable_write_once T now 0 u.ctl hne).2.2.1
+          simp only [cleanOne]
+          split
+          · rw [w1]; simp [hne, w1]
+          · simp [hne]
+        rw [hv] at hdis
+        simp only [isDisabled, this] at hdis hdu
+        rw [hdu] at hdis; cases hdis
+    · cases h
+
+set_option maxRecDepth 8192 in
+/-- Structural tie for the scheduler: every method of `ScheduleController` statement by statement, and
+    the guards around the client mux's decisions (pick only behind `default:` of `<-underlay.Done()` and
+    `!IsDisabled()`; close only sessionless idle underlays; fall back to a new underlay when there is
+    none or `IncPending` refuses). -/
+theorem scheduler_matches_source :
+    Gen.FactsC15Life.schedulerShape = [
+      ("ScheduleController.IncPending", ["if !c.disableTime.IsZero() && time.Since(c.disableTime) > 0 { return false }", "c.pending++", "c.lastScheduleTime = time.Now()", "return true"]),
+      ("ScheduleController.DecPending", ["c.pending--", "c.lastScheduleTime = time.Now()"]),
+      ("ScheduleController.DisableTime", ["return c.disableTime"]),
+      ("ScheduleController.IsDisabled", ["return !c.disableTime.IsZero() && time.Since(c.disableTime) > 0"]),
+      ("ScheduleController.Idle", ["return !c.disableTime.IsZero() && time.Since(c.lastScheduleTime) > scheduleIdleTime && time.Since(c.disableTime) > scheduleIdleTime"]),
+      ("ScheduleController.TryDisableIdle", ["if !c.disableTime.IsZero() { return false }", "if c.pending > 0 { return false }", "if !c.lastScheduleTime.IsZero() && time.Since(c.lastScheduleTime) < scheduleIdleTime { return false }", "c.disableTime = time.Now()", "return true"]),
+      ("ScheduleController.SetRemainingTime", ["if d < 0 || !c.disableTime.IsZero() { return }", "c.disableTime = time.Now().Add(d)"])] ∧
+    Gen.FactsC15Life.muxDecisions = [
+      ("Mux.DialContext", "underlay, err = m.newUnderlay(ctx)", ["underlay == nil"]),
+      ("Mux.DialContext", "ok := underlay.Scheduler().IncPending()", []),
+      ("Mux.DialContext", "underlay, err = m.newUnderlay(ctx)", ["!ok"]),
+      ("Mux.DialContext", "underlay.Scheduler().IncPending()", ["!ok"]),
+      ("Mux.maybePickExistingUnderlay", "active = append(active, underlay)", ["range m.underlays", "default of <-underlay.Done()", "!underlay.Scheduler().IsDisabled()"]),
+      ("Mux.maybePickExistingUnderlay", "return active[n/m.multiplexFactor]", ["m.multiplexFactor > 0", "n < reuseUnderlayFactor"]),
+      ("Mux.cleanUnderlay", "underlay.Close()", ["range m.underlays", "default of <-underlay.Done()", "underlay.SessionCount() == 0 && underlay.Scheduler().Idle()"]),
+      ("Mux.cleanUnderlay", "m.underlays[n] = underlay", ["range m.underlays", "default of <-underlay.Done()", "!(underlay.SessionCount() == 0 && underlay.Scheduler().Idle())"]),
+      ("Mux.cleanUnderlay", "if underlay.Scheduler().TryDisableIdle()", ["range m.underlays", "default of <-underlay.Done()", "alsoDisableIdleOrOverloadUnderlay", "underlay.SessionCount() == 0"]),
+      ("Mux.cleanUnderlay", "underlay.Scheduler().SetRemainingTime(0)", ["range m.underlays", "default of <-underlay.Done()", "alsoDisableIdleOrOverloadUnderlay", "underlay.Scheduler().DisableTime().IsZero() && (underlay.InBytes() > trafficVolumeLimit || underlay.OutBytes() > trafficVolumeLimit)"])] := by decide
+
 /-! ## Non-vacuity and regression examples -/
+
+/-- `close_settles` is not vacuous: a server's stream underlay with two sessions — one with a loop blocked
+    in a network write, one being closed by its application — the event loop parked in a read, then
+    `Mux.Close`, every actor run to the end: a reachable state in which Close has been called and nothing
+    can move, and it is settled. -/
+example : ∃ s, UClose.Reach UClose.current true true 2 s ∧ s.mux ≠ .idle ∧ UClose.Quiescent UClose.current s ∧
+    s.n = 2 ∧ UClose.Settled s := by
+  obtain ⟨s, hr, hm, hq, hn, _⟩ := UClose.full_run_witness
+  exact ⟨s, hr, hm, hq, hn, close_settles (Nat.le_refl 2) hr (Or.inr hm) hq⟩
+
+/-- on the schedule on which the unchecked `drainAfterError` parks, the current code leaves -/
+example : (UClose.runActs UClose.current (UClose.init true true 2) UClose.drainTrace).map (·.loop) = some .retn := by decide
+
+/-- `dial_reuses_only_live`: one live underlay is reused, a disabled one and a closed one are not -/
+example : Sched.dial 90000 2 0 200000 200001 [⟨1, false, ⟨0, 150000, 0⟩, 1, false⟩] = .reuse ⟨1, false, ⟨0, 150000, 0⟩, 1, false⟩ ∧
+    Sched.dial 90000 2 0 200000 200001 [⟨1, false, ⟨0, 150000, 199000⟩, 1, false⟩] = .fresh ∧
+    Sched.dial 90000 2 0 200000 200001 [⟨1, true, ⟨0, 150000, 0⟩, 1, false⟩] = .fresh := by decide
+
+/-- a Write of three chunks under a 500 ms write deadline on a stalled connection: the third chunk times
+    out at 500; three Reads back to back under a 500 ms read deadline: fed, fed, starved → 500 -/
+example : (Deadline.writeChunks true ⟨0, 500, 0⟩ 0 [some 10, some 20, none]).2 = .at 500 true ∧
+    (Deadline.readLoop false ⟨500, 0, 0⟩ 0 [some 100, some 200, none]).2 = .at 500 true ∧
+    (Deadline.writeChunks true ⟨0, 0, 0⟩ 0 [some 10, some 20]).1.resp = 10020 := by decide
+
 
 /-- three closers, one interleaving: B wins the CAS, A loses, B finishes, C loses -/
 example : ∃ s, CReach 3 s ∧ allDone s ∧ s.closes = 1 := by
